@@ -68,6 +68,11 @@ var authority = authtypes.NewModuleAddress("gov")
 // (the EVM denomination is always the first one).
 func New(extraDenoms ...string) *Env { return NewAt(1_700_000_000, extraDenoms...) }
 
+// Header is the block header the environments run under.
+func Header() cmtproto.Header {
+	return cmtproto.Header{Height: 10, ChainID: "evermint_90909-1", Time: time.Unix(1_700_000_000, 0).UTC()}
+}
+
 // NewAt is New with the given block time (unix seconds, may be symbolic).
 func NewAt(blockTime int64, extraDenoms ...string) *Env {
 	e := &Env{Denoms: append([]string{EvmDenom}, extraDenoms...)}
